@@ -70,6 +70,10 @@ def cells(cls, par, tier, seed):
             for y in near:
                 for z in near:
                     pts.append((x * a, y * b, z * c))
+        if tier == "thorough":  # 1e-6 sizes from an edge line, inside the edge's extent (log-divergent but finite field)
+            for sx, sy in ((1, 1), (-1, -1), (1, -1)):
+                pts.append((a * (1 + sx * 1e-6), b * (1 + sy * 1e-6), f_in * c))
+                pts.append((f_in * a, b * (1 + sx * 1e-6), -c * (1 + sy * 1e-6)))
         far = [f_out, -f_out, 30.0, -30.0, 1e3]
         mid = [0.0, f_in, -f_out]
         for ax in range(3):
